@@ -154,9 +154,59 @@ class Inliner:
         self.in_progress = set()
         self.stats = {'expanded': 0, 'left': []}
         self.expanded_callees = set()
+        self.lowered_tables = set()          # dict literals whose calls were lowered to if-chains
 
     # ------------------------------------------------------------------ driver
+    def expand_decorators(self):
+        """`@deco` where deco is `def deco(m): [@wraps(m)] def w(self, *a, **k): <prefix>; return m(self, *a, **k); return w`:
+        the prefix statements become the first statements of the decorated method."""
+        decos = {}
+        for f in self.tree.body:
+            if not isinstance(f, ast.FunctionDef) or len(f.args.args) != 1:
+                continue
+            m = f.args.args[0].arg
+            body = [x for x in f.body if not (isinstance(x, ast.Expr) and isinstance(x.value, ast.Constant))]
+            if len(body) != 2 or not isinstance(body[0], ast.FunctionDef) or not isinstance(body[1], ast.Return) or \
+                    not (isinstance(body[1].value, ast.Name) and body[1].value.id == body[0].name):
+                continue
+            w = body[0]
+            wa = w.args
+            if not (len(wa.args) == 1 and wa.vararg and wa.kwarg and not wa.kwonlyargs):
+                continue
+            wbody = [x for x in w.body if not (isinstance(x, ast.Expr) and isinstance(x.value, ast.Constant))]
+            last = wbody[-1] if wbody else None
+            ok = isinstance(last, ast.Return) and isinstance(last.value, ast.Call) and isinstance(last.value.func, ast.Name) \
+                and last.value.func.id == m and len(last.value.args) == 2 and isinstance(last.value.args[0], ast.Name) \
+                and last.value.args[0].id == wa.args[0].arg and isinstance(last.value.args[1], ast.Starred) \
+                and len(last.value.keywords) == 1 and last.value.keywords[0].arg is None
+            prefix = wbody[:-1]
+            names = {n.id for x in prefix for n in ast.walk(x) if isinstance(n, ast.Name)}
+            if not ok or names & {wa.vararg.arg, wa.kwarg.arg, m} or any(_has_return(x) for x in prefix):
+                continue
+            decos[f.name] = (wa.args[0].arg, prefix)
+        if not decos:
+            return
+        n = 0
+        for c in self.classes.values():
+            for fn in c.body:
+                if not isinstance(fn, ast.FunctionDef):
+                    continue
+                keep = []
+                for d in fn.decorator_list:
+                    if isinstance(d, ast.Name) and d.id in decos and fn.args.args:
+                        selfname, prefix = decos[d.id]
+                        new = [_Subst({}, {selfname: ast.Name(fn.args.args[0].arg, ast.Load())}).visit(copy.deepcopy(x))
+                               for x in prefix]
+                        doc = 1 if fn.body and isinstance(fn.body[0], ast.Expr) and isinstance(fn.body[0].value, ast.Constant) else 0
+                        fn.body[doc:doc] = new
+                        n += 1
+                    else:
+                        keep.append(d)
+                fn.decorator_list = keep
+        self.stats['decorators_expanded'] = n
+
     def run(self):
+        self.expand_decorators()
         for c in self.classes.values():
             for m in list(c.body):
                 if isinstance(m, ast.FunctionDef):
@@ -212,6 +262,7 @@ class Inliner:
             return [s]
         pre = []
         self._note_table(s, ctx)
+        self._note_lookup(s, ctx)
         if isinstance(s, ast.If):
             self._note_gate(s, ctx)
             s.test = self.expr(s.test, ctx, pre, s)
@@ -279,6 +330,8 @@ class Inliner:
             c.args = [self.expr(v, ctx, pre, s) for v in c.args]
             for kw in c.keywords:
                 kw.value = self.expr(kw.value, ctx, pre, s)
+            if self.try_dispatch_table(c, ctx, s, pre) is not None:
+                return pre              # (the value of the dispatched call is not used)
             blockres = self.try_expand_call(c, ctx, s, want_value=False)
             if blockres is not None:
                 return pre + blockres[0]
@@ -516,6 +569,29 @@ class Inliner:
             if stores == 1 and not mutated:
                 tables[name] = s.value
 
+    def _note_lookup(self, s, ctx):
+        """`h = d.get(key)` / `h = d.get(key) if cond else None` for a dispatch table d: calling h(..) later (under its
+        `is not None` guard) is calling d[key](..) when the key is present."""
+        if not (isinstance(s, ast.Assign) and len(s.targets) == 1 and isinstance(s.targets[0], ast.Name)):
+            return
+        v = s.value
+        if isinstance(v, ast.IfExp):
+            arms = [v.body, v.orelse]
+            nones = [a for a in arms if isinstance(a, ast.Constant) and a.value is None]
+            rest = [a for a in arms if a not in nones]
+            if len(nones) != 1 or len(rest) != 1:
+                return
+            v = rest[0]
+        if isinstance(v, ast.Call) and isinstance(v.func, ast.Attribute) and v.func.attr == 'get' and \
+                isinstance(v.func.value, ast.Name) and v.func.value.id in ctx.get('tables', {}) and \
+                1 <= len(v.args) <= 2 and _simple(v.args[0]) and \
+                (len(v.args) == 1 or (isinstance(v.args[1], ast.Constant) and v.args[1].value is None)):
+            name = s.targets[0].id
+            stores = sum(1 for n in _walk_no_defs(ctx['fn']) if isinstance(n, ast.Name) and n.id == name and
+                         isinstance(n.ctx, (ast.Store, ast.Del)))
+            if stores == 1:
+                ctx.setdefault('lookups', {})[name] = (v.func.value.id, v.args[0])
+
     def _note_gate(self, s, ctx):
         """`if key not in d: raise ..` - afterwards (same block) d[key] cannot fail."""
         t = s.test
@@ -526,18 +602,22 @@ class Inliner:
 
     def try_dispatch_table(self, call, ctx, stmt, pre):
         f = call.func
-        if not (isinstance(f, ast.Subscript) and isinstance(f.value, ast.Name) and f.value.id in ctx.get('tables', {})
-                and _simple(f.slice)):
+        if isinstance(f, ast.Name) and f.id in ctx.get('lookups', {}):
+            tname, keyexpr = ctx['lookups'][f.id]
+            gated = True            # a missing key leaves None, and the call sits under its `is not None` guard
+        elif isinstance(f, ast.Subscript) and isinstance(f.value, ast.Name) and f.value.id in ctx.get('tables', {}) \
+                and _simple(f.slice):
+            tname, keyexpr = f.value.id, f.slice
+            gated = (tname, ast.unparse(keyexpr)) in ctx.get('gated', ())
+        else:
             return None
-        table = ctx['tables'][f.value.id]
+        table = ctx['tables'][tname]
         k = next(self.counter)
         ret = f"_inl{k}_ret"
-        chain = None
-        gated = (f.value.id, ast.unparse(f.slice)) in ctx.get('gated', ())
-        tail = [] if gated else [ast.Raise(ast.Call(ast.Name('KeyError', ast.Load()), [copy.deepcopy(f.slice)], []), None)]
+        tail = [] if gated else [ast.Raise(ast.Call(ast.Name('KeyError', ast.Load()), [copy.deepcopy(keyexpr)], []), None)]
         for key, target in reversed(list(zip(table.keys, table.values))):
             c = ast.Call(copy.deepcopy(target), [copy.deepcopy(a) for a in call.args], [copy.deepcopy(kw) for kw in call.keywords])
-            test = ast.Compare(copy.deepcopy(f.slice), [ast.Eq()], [copy.deepcopy(key)])
+            test = ast.Compare(copy.deepcopy(keyexpr), [ast.Eq()], [copy.deepcopy(key)])
             branch = ast.If(test, [ast.Assign([ast.Name(ret, ast.Store())], c)], tail)
             tail = [branch]
         init = ast.Assign([ast.Name(ret, ast.Store())], ast.Constant(None))
@@ -548,6 +628,7 @@ class Inliner:
         pre.append(init)
         for n in tail:
             pre.extend(self.stmt(n, ctx))
+        self.lowered_tables.add(id(table))
         self.stats['expanded'] += 1
         return ast.copy_location(ast.Name(ret, ast.Load()), call)
 
@@ -610,8 +691,17 @@ class Inliner:
             if not is_closure:
                 self.expand_function(callee, ccls)          # callee first (bottom-up)
             a = callee.args
-            if a.vararg or a.kwarg:
-                raise NotInlinable('*args / **kwargs')
+            if a.kwarg:
+                raise NotInlinable('**kwargs')
+            vararg = a.vararg.arg if a.vararg else None
+            if vararg is not None:
+                # only a vararg that is handed on as `g(.., *rest)` can be expanded (the extra arguments take its place)
+                uses_ = [n for n in ast.walk(callee) if isinstance(n, ast.Name) and n.id == vararg]
+                starred = [n for n in ast.walk(callee) if isinstance(n, ast.Starred) and isinstance(n.value, ast.Name)
+                           and n.value.id == vararg]
+                in_calls = sum(1 for c_ in ast.walk(callee) if isinstance(c_, ast.Call) for x in c_.args if x in starred)
+                if len(uses_) != len(starred) or in_calls != len(starred):
+                    raise NotInlinable('*args used as a value')
             if any(isinstance(x, ast.Starred) for x in call.args) or any(k.arg is None for k in call.keywords):
                 raise NotInlinable('starred call')
             params = [x.arg for x in a.posonlyargs + a.args]
@@ -626,8 +716,12 @@ class Inliner:
             elif recv is not None and recv[0] == '<inst>' and 'staticmethod' in decos:
                 pass
             binding = {}
+            extra = []
             if len(actual) > len(params):
-                raise NotInlinable('too many arguments')
+                if vararg is None:
+                    raise NotInlinable('too many arguments')
+                extra = actual[len(params):]
+                actual = actual[:len(params)]
             for p, v in zip(params, actual):
                 binding[p] = v
             for k in call.keywords:
@@ -659,7 +753,8 @@ class Inliner:
                     if isinstance(n, ast.Name) and n.id in binding:
                         uses[n.id] = uses.get(n.id, 0) + 1
                 if all(_simple(v) or uses.get(p, 0) <= 1 for p, v in binding.items()) and not (bound & set(binding)):
-                    e = _Subst({n: f"_inl{k}_{n}" for n in bound}, binding).visit(copy.deepcopy(body[0].value))
+                    e = _Subst({n: f"_inl{k}_{n}" for n in bound}, binding).visit(
+                        self._spread(copy.deepcopy(body[0].value), vararg, extra))
                     self._mark(e, name, call)
                     self.stats['expanded'] += 1
                     self.expanded_callees.add(id(callee))
@@ -683,7 +778,7 @@ class Inliner:
                 else:
                     subst[p] = v
             ret = f"_inl{k}_ret"
-            new_body = [_Subst(rename, subst).visit(copy.deepcopy(s)) for s in body]
+            new_body = [_Subst(rename, subst).visit(self._spread(copy.deepcopy(s), vararg, extra)) for s in body]
             new_body = [s for s in new_body if s is not None]
             lowered, _ = self.lower(new_body, ret, stmt)
             blockstmts = binds
@@ -701,6 +796,22 @@ class Inliner:
         except NotInlinable as exc:
             self.stats['left'].append((getattr(ctx['fn'], 'name', '?'), name, str(exc)))
             return None
+
+    @staticmethod
+    def _spread(node, vararg, extra):
+        """Replace `*vararg` in call argument lists by the extra actual arguments."""
+        if vararg is None:
+            return node
+        for c_ in ast.walk(node):
+            if isinstance(c_, ast.Call):
+                new = []
+                for x in c_.args:
+                    if isinstance(x, ast.Starred) and isinstance(x.value, ast.Name) and x.value.id == vararg:
+                        new.extend(copy.deepcopy(e) for e in extra)
+                    else:
+                        new.append(x)
+                c_.args = new
+        return node
 
     @staticmethod
     def _mark(node, name, call):
@@ -757,10 +868,16 @@ class Inliner:
 
     # ------------------------------------------------------------------ dead helpers
     def remove_dead(self):
+        in_tables = set()
+        for n in ast.walk(self.tree):
+            if isinstance(n, ast.Dict) and id(n) in self.lowered_tables:
+                for v in n.values:
+                    in_tables.update(id(x) for x in ast.walk(v))
+
         def refs(name, skip):
             n_ = 0
             for n in ast.walk(self.tree):
-                if n is skip:
+                if n is skip or id(n) in in_tables:
                     continue
                 if isinstance(n, ast.Attribute) and n.attr == name:
                     n_ += 1
